@@ -470,6 +470,23 @@ func (E *Engine) VerifyFunc(p *packages.Package, pc *PkgContracts, c *FuncContra
 			res.Obls = append(res.Obls, o)
 		}
 	}
+	for _, ro := range c.ReadOnly {
+		ok, why, assumed := readonlyRule(p, decl, ro)
+		o := &Obligation{Name: fmt.Sprintf("%s/readonly.%s", f.key, ro), Kind: "fresh", Fn: f.key, Pkg: p.PkgPath, Props: c.Props,
+			Text: fmt.Sprintf("readonly %s: no element of the parameter's backing storage is written (no index assignment, append, copy or in-place library call through it or a slice of it)", ro),
+			Src:  fmt.Sprintf("%s:%d", shortPath(c.File), c.Line)}
+		if ok {
+			o.Decided = "unsat"
+			o.Output = "ownership rule: the parameter and its slices are only read"
+		} else {
+			o.Decided = "sat"
+			o.Output = "ownership rule: " + why
+		}
+		for _, u := range assumed {
+			f.note("assumed by the ownership rule: " + u)
+		}
+		res.Obls = append(res.Obls, o)
+	}
 	if c.Recovers && litOrd == 0 {
 		ok, why := recoversRule(p, decl)
 		o := &Obligation{Name: f.key + "/recovers", Kind: "recovers", Fn: f.key, Pkg: p.PkgPath, Props: c.Props,
@@ -735,10 +752,17 @@ func (f *FuncCtx) frameObligation(exit *Env, sig *types.Signature) {
 			base = f.specExpr(sel.X, exit)
 		}
 		f.spec = saved
-		if _, el, ok := ptrStruct(base.Typ); ok {
+		if st, el, ok := ptrStruct(base.Typ); ok {
 			if obj, _ := lookupFieldAnyPkg(base.Typ, sel.Sel.Name); obj != nil {
 				h := f.heapName(el, obj.(*types.Var))
 				allowed[h] = append(allowed[h], base.T)
+				continue
+			}
+			if sel.Sel.Name == "all" {
+				for i := 0; i < st.NumFields(); i++ {
+					h := f.heapName(el, st.Field(i))
+					allowed[h] = append(allowed[h], base.T)
+				}
 				continue
 			}
 		}
